@@ -72,16 +72,63 @@ fn map_desc_body<const N: usize>(s: &SymStr<N>, kind: u8) {
 	core::mem::forget(got);
 }
 
-//# {"id":"c06_map_desc_ascii3","props":["C06","C08"],"tier":"quick","cap":1500,"bound":"every ASCII string of length 0..=3 as field / method / return descriptor; hash-free remapper a->bb, c->d; unwind 6","fns":["quill::remapper::map_desc","ARemapper::{map_field_desc,map_method_desc,map_return_desc,map_class}"]}
-//# {"id":"c06_map_desc_alpha5","props":["C06","C08"],"tier":"thorough","cap":3600,"bound":"every string of length 0..=5 over the alphabet L ; [ a c x / ( ) as field descriptor; unwind 8","fns":["quill::remapper::map_desc","ARemapper::map_field_desc"]}
-//# {"id":"c06_map_class_defaults","props":["C06"],"tier":"quick","cap":1200,"bound":"map_class / map_class_any on every valid ASCII class name of length 1..=3 (object names) and on array names [La; [Lx; [[I; unwind 8","fns":["ARemapper::{map_class,map_class_any}","map_desc"]}
+//# {"id":"c06_map_desc_ascii3","props":["C06","C08"],"tier":"quick","cap":1500,"bound":"every ASCII string of length 0..=3 as field / method / return descriptor; hash-free remapper a->bb, c->d; unwind 6","z":["stubbing"],"fns":["quill::remapper::map_desc","ARemapper::{map_field_desc,map_method_desc,map_return_desc,map_class}"]}
+//# {"id":"c06_map_desc_alpha5","props":["C06","C08"],"tier":"thorough","cap":3600,"bound":"every string of length 0..=5 over the alphabet L ; [ a c x / ( ) as field descriptor; unwind 8","z":["stubbing"],"fns":["quill::remapper::map_desc","ARemapper::map_field_desc"]}
+//# {"id":"c06_map_class_defaults","props":["C06"],"tier":"quick","cap":1200,"bound":"map_class / map_class_any on every valid ASCII class name of length 1..=3 (object names) and on array names [La; [Lx; [[I; unwind 8","z":["stubbing"],"fns":["ARemapper::{map_class,map_class_any}","map_desc"]}
+//# {"id":"c06_map_desc_field_x2","props":["C06","C08"],"tier":"quick","cap":900,"bound":"every ASCII string of length exactly 2 as field descriptor; unwind 5","z":["stubbing"],"fns":["quill::remapper::map_desc","ARemapper::{map_field_desc,map_class}"]}
+//# {"id":"c06_map_desc_field_x3","props":["C06","C08"],"tier":"quick","cap":900,"bound":"every ASCII string of length exactly 3 as field descriptor; unwind 6","z":["stubbing"],"fns":["quill::remapper::map_desc","ARemapper::{map_field_desc,map_class}"]}
+//# {"id":"c06_map_desc_method_x3","props":["C06","C08"],"tier":"quick","cap":900,"bound":"every ASCII string of length exactly 3 as method descriptor; unwind 6","z":["stubbing"],"fns":["quill::remapper::map_desc","ARemapper::{map_method_desc,map_class}"]}
+//# {"id":"c06_map_desc_alpha_x4","props":["C06","C08"],"tier":"quick","cap":900,"bound":"every string of length exactly 4 over the alphabet L ; [ a c x / as field descriptor; unwind 7","z":["stubbing"],"fns":["quill::remapper::map_desc","ARemapper::{map_field_desc,map_class}"]}
+//# {"id":"c06_map_desc_alpha_x3","props":["C06","C08"],"tier":"quick","cap":900,"bound":"every string of length exactly 3 over the alphabet L ; [ a c x / as field descriptor; unwind 6","z":["stubbing"],"fns":["quill::remapper::map_desc","ARemapper::{map_field_desc,map_class}"]}
 proofs! {
 	#[cfg_attr(kani, kani::unwind(6))]
+	#[cfg_attr(kani, kani::stub(std::alloc::alloc, crate::hstubs::alloc_stub))]
+	#[cfg_attr(kani, kani::stub(std::alloc::alloc_zeroed, crate::hstubs::alloc_zeroed_stub))]
+	#[cfg_attr(kani, kani::stub(std::alloc::realloc, crate::hstubs::realloc_stub))]
+	#[cfg_attr(kani, kani::stub(std::alloc::dealloc, crate::hstubs::dealloc_stub))]
+	fn c06_map_desc_alpha_x3() { let s = SymStr::<3>::over(b"L;[acx/", 3, 3); map_desc_body(&s, 0); }
+	#[cfg_attr(kani, kani::unwind(5))]
+	#[cfg_attr(kani, kani::stub(std::alloc::alloc, crate::hstubs::alloc_stub))]
+	#[cfg_attr(kani, kani::stub(std::alloc::alloc_zeroed, crate::hstubs::alloc_zeroed_stub))]
+	#[cfg_attr(kani, kani::stub(std::alloc::realloc, crate::hstubs::realloc_stub))]
+	#[cfg_attr(kani, kani::stub(std::alloc::dealloc, crate::hstubs::dealloc_stub))]
+	fn c06_map_desc_field_x2() { let s = SymStr::<2>::exact(); map_desc_body(&s, 0); }
+	#[cfg_attr(kani, kani::unwind(6))]
+	#[cfg_attr(kani, kani::stub(std::alloc::alloc, crate::hstubs::alloc_stub))]
+	#[cfg_attr(kani, kani::stub(std::alloc::alloc_zeroed, crate::hstubs::alloc_zeroed_stub))]
+	#[cfg_attr(kani, kani::stub(std::alloc::realloc, crate::hstubs::realloc_stub))]
+	#[cfg_attr(kani, kani::stub(std::alloc::dealloc, crate::hstubs::dealloc_stub))]
+	fn c06_map_desc_field_x3() { let s = SymStr::<3>::exact(); map_desc_body(&s, 0); }
+	#[cfg_attr(kani, kani::unwind(6))]
+	#[cfg_attr(kani, kani::stub(std::alloc::alloc, crate::hstubs::alloc_stub))]
+	#[cfg_attr(kani, kani::stub(std::alloc::alloc_zeroed, crate::hstubs::alloc_zeroed_stub))]
+	#[cfg_attr(kani, kani::stub(std::alloc::realloc, crate::hstubs::realloc_stub))]
+	#[cfg_attr(kani, kani::stub(std::alloc::dealloc, crate::hstubs::dealloc_stub))]
+	fn c06_map_desc_method_x3() { let s = SymStr::<3>::exact(); map_desc_body(&s, 1); }
+	#[cfg_attr(kani, kani::unwind(7))]
+	#[cfg_attr(kani, kani::stub(std::alloc::alloc, crate::hstubs::alloc_stub))]
+	#[cfg_attr(kani, kani::stub(std::alloc::alloc_zeroed, crate::hstubs::alloc_zeroed_stub))]
+	#[cfg_attr(kani, kani::stub(std::alloc::realloc, crate::hstubs::realloc_stub))]
+	#[cfg_attr(kani, kani::stub(std::alloc::dealloc, crate::hstubs::dealloc_stub))]
+	fn c06_map_desc_alpha_x4() { let s = SymStr::<4>::over(b"L;[acx/", 4, 4); map_desc_body(&s, 0); }
+	#[cfg_attr(kani, kani::unwind(6))]
+	#[cfg_attr(kani, kani::stub(std::alloc::alloc, crate::hstubs::alloc_stub))]
+	#[cfg_attr(kani, kani::stub(std::alloc::alloc_zeroed, crate::hstubs::alloc_zeroed_stub))]
+	#[cfg_attr(kani, kani::stub(std::alloc::realloc, crate::hstubs::realloc_stub))]
+	#[cfg_attr(kani, kani::stub(std::alloc::dealloc, crate::hstubs::dealloc_stub))]
 	fn c06_map_desc_ascii3() { let s = SymStr::<3>::any(0, 3); let kind = sym::u8_in(0, 2); map_desc_body(&s, kind); }
 	#[cfg_attr(kani, kani::unwind(8))]
+	#[cfg_attr(kani, kani::stub(std::alloc::alloc, crate::hstubs::alloc_stub))]
+	#[cfg_attr(kani, kani::stub(std::alloc::alloc_zeroed, crate::hstubs::alloc_zeroed_stub))]
+	#[cfg_attr(kani, kani::stub(std::alloc::realloc, crate::hstubs::realloc_stub))]
+	#[cfg_attr(kani, kani::stub(std::alloc::dealloc, crate::hstubs::dealloc_stub))]
 	fn c06_map_desc_alpha5() { let s = SymStr::<5>::over(b"L;[acx/()", 0, 5); map_desc_body(&s, 0); }
 
 	#[cfg_attr(kani, kani::unwind(8))]
+	#[cfg_attr(kani, kani::stub(std::alloc::alloc, crate::hstubs::alloc_stub))]
+	#[cfg_attr(kani, kani::stub(std::alloc::alloc_zeroed, crate::hstubs::alloc_zeroed_stub))]
+	#[cfg_attr(kani, kani::stub(std::alloc::realloc, crate::hstubs::realloc_stub))]
+	#[cfg_attr(kani, kani::stub(std::alloc::dealloc, crate::hstubs::dealloc_stub))]
 	fn c06_map_class_defaults() {
 		use crate::refmodel::grammar;
 		let s = SymStr::<3>::any(1, 3);
